@@ -32,10 +32,13 @@ CHECKS = {
               "DESIGN.md 8 C07", "Bounded: <= 4 parameters, ReST docs. Known findings S-docorder, S-kwargs."),
     "C08": _c("other", HYBRID + "Deductive: idempotence / inverse laws (set_default_doc twice == once, quote twice, unquote o quote, set_value). Bounded: t2 == t3 for 7 kinds x options over D_IR.",
               "DESIGN.md 8 C08", "Bounded: D_IR. Known findings X8-*."),
-    "C12": _c("other", "Decided statically: every syntactic source of nondeterminism in the non-test modules is an obligation decided by rule on the AST (for all inputs, by "
-              "over-approximation), plus location_within's contract; reported as proof only when obligations == discharged (the gen() module-state write is an open finding). "
-              "A hash-seed / call-order sweep guards the audit's completeness (bounded).", "DESIGN.md 8 C12",
-              "Trusted: the audit's list of nondeterminism source kinds; CPython dict order. Known finding G-globals."),
+    "C12": _c("proof", "Decided statically, for all inputs, by over-approximation: every syntactic source of run-to-run variation in the non-test modules (iteration over a "
+              "set-like value, a set-like value handed to an order-sensitive parameter, id / hash / random / time / environment reads after import, writes to state that "
+              "outlives a call) is an obligation decided by rule on the AST of /repo's current source, plus the contracts of location_within, ir_merge and _join_non_none "
+              "(ordered merge). The run reports level 'proof' only when obligations == discharged; any open obligation makes it 'other'. A hash-seed / call-order sweep "
+              "guards the completeness of the rule list (bounded, never counted).", "DESIGN.md 8 C12",
+              "Trusted (unchecked): the audit's list of nondeterminism source kinds is complete; CPython dicts keep insertion order; the libraries called (ast, textwrap, "
+              "black) are deterministic. The module-state write in gen() that kept this at 'other' was repaired in /repo (d61fd93)."),
     "C13": _c("other", HYBRID + "Deductive: copy-before-mutate dominance in parse.function and in all four emitters (syntactic frame obligations), get_internal_body frame, "
               "set_default_doc idempotent mutation. Bounded (relational contract): call sequences up to length 3 (4 thorough) on a shared IR vs fresh copies.",
               "DESIGN.md 8 C13", "Bounded: sequence length, 13 IRs."),
